@@ -21,6 +21,12 @@ def run(tier):
     # already expired when written
     es = kv.emit(c, "kv-slash", kv.consts(keys="KeysT", pats="PatsT", invals=("x",), exps=("none", "far", "past"), many=2), workers=6)
     kv.replay_both(c, [es])
+    # the rest of the documented pattern syntax: alternatives and negated classes (gobwas only: in-memory backend),
+    # plain classes (both backends)
+    eg = kv.emit(c, "kv-glob", kv.consts(keys="Keys3", pats="PatsG", invals=("x",), exps=("none",), many=1), workers=6)
+    c.replay("kv", eg, variant="inmem", extra={"tick_ms": 30})
+    ec = kv.emit(c, "kv-class", kv.consts(keys="Keys3", pats="PatsC", invals=("x",), exps=("none",), many=1), workers=6)
+    kv.replay_both(c, [ec])
     # the same contract with time, on the Redis backend only (virtual clock, so it is cheap): what a write
     # stored - including the TTL the server keeps for it - is observed after time has passed
     et = kv.emit(c, "kv-time-redis", kv.consts(pats="Pats2", invals=("x",), exps=("none", "s1", "s3"), maxnow=4), workers=6)
@@ -30,10 +36,13 @@ def run(tier):
         selftest(c, emits[0])
     c.assumptions += ["keys without a leading '/' (the Redis client strips leading slashes; not part of the stated contract)",
                       "value bytes nil == empty; expiry compared with time.Equal; ListKeys order unspecified (compared as sets)",
-                      "version strings are only required to be fresh and to identify the stored record"]
+                      "version strings are only required to be fresh and to identify the stored record",
+                      "patterns with {alternatives} or [!negated] classes (gobwas syntax, which kvs.go refers to) are replayed on the in-memory "
+                      "backend only: the Redis client hands the pattern to the server's own matcher, which has no alternatives and spells "
+                      "negation differently"]
     return c.finish(rule="one behaviour per edge of the KvStore.tla state graph (2-3 keys incl. one with '/', nil/empty/non-empty values, "
                          "records with and without expiry, GetMany/PutMany with repeated keys, CAS with current/stale/unknown version, "
-                         "ListKeys over 6 glob patterns, non-blocking WaitForVersionChange) plus TLC-simulated long behaviours, each "
+                         "ListKeys over 6 glob patterns + alternatives and character classes, non-blocking WaitForVersionChange) plus TLC-simulated long behaviours, each "
                          "replayed on a fresh inmem.New() and on the Redis client over a fresh in-process miniredis; every reply "
                          "compared with the contract's (error class via errors.Is, record fields, version identity/freshness, key set)")
 
